@@ -22,6 +22,9 @@ def run_property(prop: str, tier: str, repo: str, seed: int, quiet: bool = False
         print(f"ANALYSIS-ERROR property={prop} rule=- reason=no rule set implemented")
         return 2, ck
     try:
+        from .assumptions import check_a1
+        for prob in check_a1(ck):
+            ck.analysis_errors.append(('A1', prob))
         mod.run(ck)
     except AnalysisError as err:
         ck.analysis_errors.append((err.rule, err.reason))
